@@ -469,17 +469,25 @@ func c15Config(c *ctxT, rng *rand.Rand, n int) {
 		if rng.Intn(2) == 0 {
 			over = mutateJSON(rng, `{"max_pool_size":10,"vswitches":{"zone-b":null},"eni_tags":null}`)
 		}
+		// whole-document corner values (a chart that renders an unset value: null, an empty string, a scalar)
+		docs := []string{"null", " null\n", "{}", "[]", "0", "\"\"", "true", ""}
+		switch rng.Intn(12) {
+		case 0:
+			base = docs[rng.Intn(len(docs))]
+		case 1:
+			over = docs[rng.Intn(len(docs))]
+		}
 		fmt.Printf("CASE config base=%s overlay=%s\n", shorten(fmt.Sprintf("%q", base), 600), shorten(fmt.Sprintf("%q", over), 300))
 		var cfg *tdaemon.Config
+		merged := false
 		guard(c, "daemon.MergeConfigAndUnmarshal", map[string]string{"base": base, "overlay": over}, func() {
 			var err error
 			cfg, err = tdaemon.MergeConfigAndUnmarshal([]byte(over), []byte(base))
 			r.DistinctKey(fmt.Sprintf("config/merge/%v", err == nil))
-			if err != nil {
-				cfg = nil
-			}
+			merged = err == nil
 		})
-		if cfg != nil {
+		if merged {
+			// every caller uses the configuration as soon as no error came back
 			guard(c, "daemon.Config.Populate+Validate", base, func() {
 				cfg.Populate()
 				_ = cfg.Validate()
